@@ -4,7 +4,7 @@ cd "$(dirname "$0")"
 tier=${1:-quick}
 for p in ${PROPS:-C01 C02 C03 C04 C05 C06 C07 C08 C09 C10 C11 C12 C13 C14 C15 C16 C17 C18 C19 C20}; do
   s=$(date +%s)
-  ./check $p --tier $tier > /tmp/all_$p.out 2>&1; rc=$?
+  ./check $p --tier $tier > /tmp/all_$$_$p.out 2>&1; rc=$?
   e=$(date +%s)
-  echo "$p rc=$rc $((e-s))s : $(tail -1 /tmp/all_$p.out | cut -c1-170)"
+  echo "$p rc=$rc $((e-s))s : $(tail -1 /tmp/all_$$_$p.out | cut -c1-170)"
 done
